@@ -274,6 +274,12 @@ func execSeq[K comparable, V, E any](in *Interp[K, V], el *elem[E], st Step) map
 	// Searchable[E]
 	if s, ok := o.v.(col.Searchable[E]); ok {
 		switch st.M {
+		case "GetIndex", "ContainsValue", "ContainsAny", "ContainsAll":
+			// searching compares structurally: with a codec whose distinct tokens
+			// are structurally equal (pointer keys) the token found is not determined
+			need(!(in.NoSort && el.cls == 'K'), "distinct key tokens are structurally equal for this codec")
+		}
+		switch st.M {
 		case "GetIndex":
 			return rInt(s.GetIndex(el.enc(arg(0))))
 		case "ContainsValue":
